@@ -104,6 +104,42 @@ pub fn salted_radial(tag: i64, elevation: u8, azimuth_number: u16, mode: u8) -> 
     }
 }
 
+/// Accessor-level fingerprint of a radial, independent of the type's own `PartialEq` / `Debug` implementations.
+pub fn fingerprint(r: &Radial) -> Vec<u64> {
+    let mut v = vec![
+        r.collection_timestamp() as u64,
+        r.azimuth_number() as u64,
+        r.azimuth_angle_degrees().to_bits() as u64,
+        r.azimuth_spacing_degrees().to_bits() as u64,
+        r.elevation_number() as u64,
+        r.elevation_angle_degrees().to_bits() as u64,
+        crate::runner::hash_bytes(format!("{:?}", r.radial_status()).as_bytes()),
+    ];
+    for m in [r.reflectivity(), r.velocity(), r.spectrum_width(), r.differential_reflectivity(), r.differential_phase(), r.correlation_coefficient(), r.specific_differential_phase()] {
+        match m {
+            None => v.push(u64::MAX),
+            Some(md) => {
+                let vals = md.values();
+                v.push(vals.len() as u64);
+                for x in vals {
+                    v.push(match x {
+                        nexrad_model::data::MomentValue::Value(f) => f.to_bits() as u64,
+                        nexrad_model::data::MomentValue::BelowThreshold => 1 << 40,
+                        nexrad_model::data::MomentValue::RangeFolded => 2 << 40,
+                    });
+                }
+            }
+        }
+    }
+    v
+}
+
+/// Whole-value comparison: the type's `==` and (for small cases always, otherwise for a quarter of the cases) the
+/// accessor fingerprint, so that a hand-written `PartialEq` that ignores a field cannot hide an altered radial.
+fn same_radial(a: &Radial, b: &Radial, deep: bool) -> bool {
+    a == b && (!deep || fingerprint(a) == fingerprint(b))
+}
+
 pub fn check_grouping(case: &SeqCase) -> Check {
     let elevs = case.expand();
     let input: Vec<Radial> = elevs
@@ -141,8 +177,9 @@ pub fn check_grouping(case: &SeqCase) -> Check {
             format!("{} radials in, {} out (identity mode {}): first input radial not found in the output: index {}", reference.len(), flat.len(), case.mode % 5, first_missing),
         ));
     }
+    let deep = reference.len() <= 8 || (reference.len() + case.runs.len()) % 4 == 0;
     for (i, (g, w)) in flat.iter().zip(reference.iter()).enumerate() {
-        if *g != w {
+        if !same_radial(g, w, deep) {
             let moved = reference.iter().any(|x| *g == x);
             let sig = if moved { "grouping:concatenation-differs" } else { "grouping:radial-altered" };
             return Err(Fail::new(sig, format!("output radial {} is not input radial {} (identity mode {}; {})", i, i, case.mode % 5, if moved { "it is another input radial: order/duplication differs" } else { "it equals no input radial" })));
@@ -199,7 +236,8 @@ pub fn check_merge(case: &MergeCase) -> Check {
     };
     ensure_eq!(merged.elevation_number(), case.elev_a, "merge:elevation-number");
     let got = merged.radials();
-    if got.len() != expected.len() || got.iter().zip(expected.iter()).any(|(g, w)| g != w) {
+    let deep = expected.len() <= 8 || (case.az_a.len() + 3 * case.az_b.len()) % 4 == 0;
+    if got.len() != expected.len() || got.iter().zip(expected.iter()).any(|(g, w)| !same_radial(g, w, deep)) {
         // same multiset?  (quadratic, only on failure)
         let mut pool: Vec<&Radial> = expected.iter().collect();
         let mut union = got.len() == expected.len();
